@@ -313,7 +313,8 @@ def _frames(seed: int):
 
     rng = random.Random(seed)
     n = rng.randint(0, 14)
-    names = ["aten::mm", "aten::add", "cudaLaunchKernel", "Event Sync", "Context Sync", "Memcpy DtoH (Device -> Pinned)", "void kernel_a", "ProfilerStep#3"]
+    names = ["aten::mm", "aten::add", "cudaLaunchKernel", "Event Sync", "Context Sync", "Memcpy DtoH (Device -> Pinned)", "void kernel_a", "ProfilerStep#3",
+             "Event Sync wait (dataloader)", "Context Sync barrier", "my_lib::Context Sync"]  # names that merely contain / begin with a device-level sync name are ordinary names
     cats = ["cpu_op", "cuda_runtime", "kernel", "gpu_memcpy", "cuda_sync", "user_annotation"]
     rows = []
     for i in range(n):
